@@ -14,7 +14,8 @@ Drawn primitives (what the stroker must fill, shrunk by the band):
   lines (unclipped Miter / MiterClip / Arcs / ArcsClip between straight segments);
 * at an open end: the half disc of radius `lo` beyond the end (Round and Square caps).
 Allowances (what it may fill beyond `hi`): the square of a Square cap, the disc of radius
-`limit·w/2 + band` around the vertex of a miter-type join. Beyond the cut of a Butt cap nothing is demanded.
+`limit·w/2 + band` around the vertex of a miter-type join, and for clipping joiners the cut miter
+(at most `limit·w/2 + band` along the bisector). Beyond the cut of a Butt cap nothing is demanded.
 -/
 namespace Canvas.C04.Spec
 open Canvas.Wn Canvas.C04
@@ -138,7 +139,45 @@ def inMiterDisc (st : Style) (p v : IPt) (hw band : Int) : Bool :=
   let r := st.limN * hw + band * st.limD
   st.join ≥ 2 && decide ((sq (p.x - v.x) + sq (p.y - v.y)) * st.limD * st.limD ≤ r * r)
 
-/-- names the failure class of the library's clipped miter: within `√(1+limit²)·(hw + band)` -/
+/-- `a·√y + b·√x ≤ 0` for `x, y ≥ 0`, exactly -/
+def radSumNonpos (a x b y : Int) : Bool :=
+  if a ≤ 0 ∧ b ≤ 0 then true
+  else if a > 0 ∧ b > 0 then false
+  else if a > 0 then decide (a * a * y ≤ b * b * x)
+  else decide (b * b * x ≤ a * a * y)
+
+/-- the component of `q` along the unit bisector of `N0 = r0/|r0|`, `N1 = r1/|r1|` is at most `Rn/Rd`:
+`q·(N0+N1) ≤ (Rn/Rd)·|N0+N1|`, brought to one radical `√(|r0|²|r1|²)` -/
+def bisectorLe (qx qy r0x r0y r1x r1y Rn Rd : Int) : Bool :=
+  let x := r0x * r0x + r0y * r0y
+  let y := r1x * r1x + r1y * r1y
+  let a := idot qx qy r0x r0y
+  let b := idot qx qy r1x r1y
+  let c := idot r0x r0y r1x r1y
+  radSumNonpos a x b y ||
+    !(sqrtGt (2 * a * b * Rd * Rd - 2 * Rn * Rn * c) (x * y)
+        (2 * Rn * Rn * (x * y) - (a * a * y + b * b * x) * Rd * Rd))
+
+/-- the cut miter of a clipping joiner (MiterClip / ArcsClip): in the cone of the two outer normals,
+below both outer offset lines (grown to `hi`) and at most `limit·hw + band` from the vertex ALONG THE
+BISECTOR — the cut corners lie off the bisector, outside the disc of `inMiterDisc` -/
+def inClipCut (st : Style) (p a v b : IPt) (hi hw band : Int) : Bool :=
+  let d0x := v.x - a.x; let d0y := v.y - a.y
+  let d1x := b.x - v.x; let d1y := b.y - v.y
+  let cr := icross d0x d0y d1x d1y
+  let r0 := outerNormal d0x d0y cr
+  let r1 := outerNormal d1x d1y cr
+  let qx := p.x - v.x; let qy := p.y - v.y
+  let cc := icross r0.1 r0.2 r1.1 r1.2
+  let sg : Int := if cc > 0 then 1 else -1
+  (st.join == 3 || st.join == 5) && decide (cr ≠ 0) &&
+    decide (0 ≤ sg * icross qx qy r1.1 r1.2) && decide (0 ≤ sg * icross r0.1 r0.2 qx qy) &&
+    leRadius (idot qx qy r0.1 r0.2) hi (d0x * d0x + d0y * d0y) &&
+    leRadius (idot qx qy r1.1 r1.2) hi (d1x * d1x + d1y * d1y) &&
+    bisectorLe qx qy r0.1 r0.2 r1.1 r1.2 (st.limN * hw + band * st.limD) st.limD
+
+/-- names the regression class of the miter-clip fraction (repaired in /repo 95736b2): within
+`√(1+limit²)·(hw + band)` of the vertex of a clipping join -/
 def inClipZone (st : Style) (p v : IPt) (hw band : Int) : Bool :=
   (st.join == 3 || st.join == 5) &&
     decide ((sq (p.x - v.x) + sq (p.y - v.y)) * st.limD * st.limD
@@ -204,7 +243,7 @@ def exemptNear (st : Style) (g : Geo) (L : Lens) (p : IPt) : Bool :=
 /-- the point lies where the property allows area beyond `hi` -/
 def mayFill (st : Style) (g : Geo) (L : Lens) (p : IPt) : Bool :=
   (g.ends.any fun e => inSquareCap st p e.1 e.2 L.hi L.band) ||
-  (g.joins.any fun t => inMiterDisc st p t.2.1 L.hw L.band)
+  (g.joins.any fun t => inMiterDisc st p t.2.1 L.hw L.band || inClipCut st p t.1 t.2.1 t.2.2 L.hi L.hw L.band)
 
 def clipZone (st : Style) (g : Geo) (L : Lens) (p : IPt) : Bool :=
   g.joins.any fun t => inClipZone st p t.2.1 L.hw L.band
